@@ -195,7 +195,8 @@ type Job struct {
 	Names  []string `json:"names"`
 	NPos   int      `json:"npos"`
 	Status string   `json:"status_file,omitempty"`
-	Env    []string `json:"env,omitempty"` // extra environment of the worker
+	Env    []string `json:"env,omitempty"`   // extra environment of the worker
+	Extra  []string `json:"extra,omitempty"` // further variable names the envdump children report
 }
 
 type JobResult struct {
@@ -243,7 +244,7 @@ func schedule(d *dag.DAG, g *scheduler.ExecutionGraph, dir string) (*scheduler.S
 	return sc, sc.Status(g).String()
 }
 
-func envDag(dir string, names []string, npos int) string {
+func envDag(dir string, names []string, npos int, extra ...string) string {
 	me := self()
 	var all []string
 	var dollars []string
@@ -257,6 +258,7 @@ func envDag(dir string, names []string, npos int) string {
 		all = append(all, n)
 		dollars = append(dollars, "$"+n)
 	}
+	all = append(all, extra...)
 	y := "name: c11env\nsteps:\n" +
 		"  - name: s1\n    command: " + me + " envdump " + filepath.Join(dir, "p-env.json") + " " + strings.Join(all, " ") + "\n" +
 		"  - name: s2\n    command: " + me + " argdump " + filepath.Join(dir, "p-arg.json") + " " + strings.Join(dollars, " ") + "\n    depends:\n      - s1\n" +
@@ -303,7 +305,7 @@ func workerMain() {
 	switch j.Mode {
 	case "cli":
 		// the real command line entry point: blackdagger start -p "<params>" file
-		f := envDag(j.Dir, j.Names, j.NPos)
+		f := envDag(j.Dir, j.Names, j.NPos, j.Extra...)
 		os.Setenv("HOME", j.Dir)
 		os.Setenv("BLACKDAGGER_HOME", filepath.Join(j.Dir, ".blackdagger"))
 		os.Args = []string{"blackdagger", "start", "-q", "-p", j.Params, f}
@@ -314,7 +316,7 @@ func workerMain() {
 	case "env", "reload":
 		f := filepath.Join(j.Dir, "c11env.yaml")
 		if j.Mode == "env" {
-			f = envDag(j.Dir, j.Names, j.NPos)
+			f = envDag(j.Dir, j.Names, j.NPos, j.Extra...)
 		}
 		d, err := dag.Load("", f, j.Params)
 		if err != nil {
@@ -489,6 +491,30 @@ func namesOf(items []Item) ([]string, int) {
 	return ns, len(items) + 2
 }
 
+// a positional value that quoteParam (model.Params) reads as NAME=value: the name, when it is a harmless word
+func posEqNames(items []Item) []string {
+	var out []string
+	for _, it := range items {
+		if it.Name != "" {
+			continue
+		}
+		i := strings.Index(it.Value, "=")
+		if i <= 0 {
+			continue
+		}
+		ok := true
+		for _, ch := range it.Value[:i] {
+			if !(ch >= 'a' && ch <= 'z' || ch >= 'A' && ch <= 'Z' || ch >= '0' && ch <= '9' || ch == '_') {
+				ok = false
+			}
+		}
+		if ok && !(it.Value[0] >= '0' && it.Value[0] <= '9') {
+			out = append(out, it.Value[:i])
+		}
+	}
+	return out
+}
+
 func execCase(c *Case, base string) {
 	t0 := time.Now()
 	defer func() { c.Ms = int(time.Since(t0) / time.Millisecond) }()
@@ -511,7 +537,7 @@ func execCase(c *Case, base string) {
 		}
 		defer os.RemoveAll(dir)
 		names, npos := namesOf(c.Items)
-		r, hang := runJob(Job{Mode: "env", Dir: dir, Params: c.S, Names: names, NPos: npos}, 20*time.Second)
+		r, hang := runJob(Job{Mode: "env", Dir: dir, Params: c.S, Names: names, NPos: npos, Extra: posEqNames(c.Items)}, 20*time.Second)
 		c.Hang, c.Err, c.Status = hang, r.Err, r.Status
 		if r.Params != nil {
 			c.Params = r.Params
@@ -546,7 +572,7 @@ func execCase(c *Case, base string) {
 		}
 		defer os.RemoveAll(dir)
 		names, npos := namesOf(c.Items)
-		r, hang := runJob(Job{Mode: "env", Dir: dir, Params: c.S, Names: names, NPos: npos, Env: []string{"C11VAR=alpha"}}, 20*time.Second)
+		r, hang := runJob(Job{Mode: "env", Dir: dir, Params: c.S, Names: names, NPos: npos, Env: []string{"C11VAR=alpha"}, Extra: posEqNames(c.Items)}, 20*time.Second)
 		c.Hang, c.Err, c.Status = hang, r.Err, r.Status
 		if r.Params != nil {
 			c.Params = r.Params
@@ -859,7 +885,8 @@ func main() {
 			{{Kind: "q", Value: `"hi" there`}},
 			{{Kind: "q", Value: ""}, {Kind: "nq", Name: "E", Value: ""}},
 			{{Kind: "q", Value: "a= b"}}, {{Kind: "q", Value: "a =b"}}, {{Kind: "q", Value: "a="}, {Kind: "q", Value: "b"}},
-			{{Kind: "nw", Name: "K", Value: "a=b"}}, {{Kind: "w", Value: "=a"}},
+			{{Kind: "nw", Name: "K", Value: "a=b"}}, {{Kind: "w", Value: "=a"}}, {{Kind: "q", Value: "PEQ=x y"}, {Kind: "w", Value: "z"}},
+			{{Kind: "q", Value: "a b\\"}, {Kind: "q", Value: "c d"}}, {{Kind: "q", Value: "x y=z"}}, {{Kind: "w", Value: "tail\\"}},
 			{{Kind: "nq", Name: "K", Value: "x=y z"}, {Kind: "w", Value: "p"}, {Kind: "q", Value: "q r"}},
 		}
 		for _, it := range fixedDoc {
